@@ -339,6 +339,12 @@ impl Recd {
         if had_keys && only_clear_app_or_alert && self.ep.letter() != before {
             self.clear_violations.push(format!("rec:handshake-phase:0:{}:state-{}-to-{}-unauthenticated", recs[0].ctype, before, self.ep.letter()));
         }
+        // where the transport sends is part of its state: no datagram — least of all one from another address — may move it
+        // (the harness presets the peer's address, so it must never change)
+        let dest = *self.ep.conn.remote_addr.read();
+        if dest != self.ep.sink_addr && !self.clear_violations.iter().any(|v| v.starts_with("rec:handshake-phase:destination")) {
+            self.clear_violations.push(format!("rec:handshake-phase:destination-moved-to-the-source-of-a-datagram:state-{}:from-{}", self.ep.letter(), if src == self.ep.sink_addr { "genuine" } else { "third-party" }));
+        }
         self.outs.push(o);
         sent
     }
